@@ -26,15 +26,33 @@ theorem exec_guardFirst (oc : String → St → Res) (env : Env) :
       · simp [exec, hc, ih st h hu]
     | _ => simp [guardFirst] at h
 
-/-- A body that starts by taking the scope guard ends with the flag cleared, whatever happens inside. -/
+/-- the body starts by taking the re-entrant guard -/
+def restoringFirst : List Stmt → Bool
+  | .restoreGuard :: _ => true
+  | _ => false
+
+/-- A body that starts by taking a scope guard of either kind ends with the flag cleared if it was
+clear on entry, whatever happens inside. -/
 theorem exec_guardedFirst (oc : String → St → Res) (env : Env) (body : List Stmt) (st : St)
-    (h : guardedFirst body = true) : (exec oc env body st).st.inUse = false := by
+    (h : guardedFirst body = true) (h0 : st.inUse = false) : (exec oc env body st).st.inUse = false := by
   cases body with
   | nil => simp [guardedFirst] at h
   | cons s rest =>
     cases s with
     | scopeGuard => simp [exec, Res.release]
+    | restoreGuard => simp [exec, Res.restore, h0]
     | _ => simp [guardedFirst] at h
+
+/-- A body that starts by taking the re-entrant guard ends with the flag as it was on entry,
+whatever happens inside. -/
+theorem exec_restoringFirst (oc : String → St → Res) (env : Env) (body : List Stmt) (st : St)
+    (h : restoringFirst body = true) : (exec oc env body st).st.inUse = st.inUse := by
+  cases body with
+  | nil => simp [restoringFirst] at h
+  | cons s rest =>
+    cases s with
+    | restoreGuard => simp [exec, Res.restore]
+    | _ => simp [restoringFirst] at h
 
 /-- If one of the conditions tested before the first write/return/call holds, the function throws
 with the state untouched. -/
@@ -70,6 +88,7 @@ def flagFree : List Stmt → Bool
   | [] => true
   | .setInUse _ :: _ => false
   | .scopeGuard :: _ => false
+  | .restoreGuard :: _ => false
   | .call _ :: _ => false
   | _ :: rest => flagFree rest
 
@@ -88,6 +107,7 @@ theorem exec_flagFree (oc : String → St → Res) (env : Env) :
     | setInUse b => simp [flagFree] at h
     | call f => simp [flagFree] at h
     | scopeGuard => simp [flagFree] at h
+    | restoreGuard => simp [flagFree] at h
     | ret => simp [exec]
     | assertC c => simp only [flagFree] at h; by_cases hc : Cond.eval env 0 c = true <;> simp [exec, hc, ih st h]
     | paramsCheck => simp only [flagFree] at h; simp [exec, ih st h]
@@ -104,20 +124,6 @@ theorem runSetter_flag (tbl : List FnDef) (hff : ∀ f ∈ tbl, flagFree f.body 
       exact List.mem_of_find?_eq_some hl
     simpa using exec_flagFree noCall sc.env f.body st (hff f hm)
 
-theorem runActs_flag (tbl : List FnDef) (hff : ∀ f ∈ tbl, flagFree f.body = true) :
-    ∀ (acts : List SetterCall) (st : St), (runActs tbl acts st).st.inUse = st.inUse := by
-  intro acts
-  induction acts with
-  | nil => intro st; simp [runActs]
-  | cons a rest ih =>
-    intro st
-    have h1 := runSetter_flag tbl hff a st
-    simp only [runActs]
-    split
-    · simpa using h1
-    · simpa using h1
-    · simp [ih, h1]
-
 theorem andThen_flag (r : Res) (k : St → Res) (b : Bool) (h1 : r.st.inUse = b)
     (h2 : ∀ s, s.inUse = b → (k s).st.inUse = b) : (r.andThen k).st.inUse = b := by
   unfold Res.andThen
@@ -125,41 +131,83 @@ theorem andThen_flag (r : Res) (k : St → Res) (b : Bool) (h1 : r.st.inUse = b)
   · simpa using h2 r.st h1
   · exact h1
 
-theorem runCallbacks_flag (tbl : List FnDef) (hff : ∀ f ∈ tbl, flagFree f.body = true) :
-    ∀ (cbs : List Callback) (st : St), (runCallbacks tbl cbs st).st.inUse = st.inUse := by
-  intro cbs
-  induction cbs with
-  | nil => intro st; simp [runCallbacks]
-  | cons cb rest ih =>
-    intro st
-    simp only [runCallbacks]
-    apply andThen_flag
-    · exact runActs_flag tbl hff cb.acts st
-    · intro s hs
-      by_cases ht : cb.throws = true
-      · simp [ht, hs]
-      · simp [ht, ih s, hs]
+theorem absorbThen_flag (r : Res) (line : String) (k : St → Res) (b : Bool) (h1 : r.st.inUse = b)
+    (h2 : ∀ s, s.inUse = b → (k s).st.inUse = b) : (r.absorbThen line k).st.inUse = b := by
+  unfold Res.absorbThen
+  split
+  · exact h1
+  · exact h1
+  · simpa using h2 r.st h1
 
-theorem runStage_flag (tbl : List FnDef) (hff : ∀ f ∈ tbl, flagFree f.body = true) (sg : Stage) (st : St) :
-    (runStage tbl sg st).st.inUse = st.inUse := by
-  unfold runStage
-  apply andThen_flag
-  · exact runCallbacks_flag tbl hff sg.cbs st
-  · intro s hs
-    by_cases ht : sg.throws = true <;> simp [ht, hs]
+theorem lookup_mem (tbl : List FnDef) (n : String) (f : FnDef) (h : lookup tbl n = some f) : f ∈ tbl := by
+  unfold lookup at h
+  exact List.mem_of_find?_eq_some h
+
+/-- A call of a function that takes the re-entrant guard first leaves the flag as it was, whatever
+its stage does. -/
+theorem runCall_flag (pcs : List FnDef) (hpc : ∀ f ∈ pcs, restoringFirst f.body = true) (name : String)
+    (stage : St → Res) (st : St) : (runCall pcs name stage st).st.inUse = st.inUse := by
+  unfold runCall
+  cases hl : lookup pcs name with
+  | none => simp
+  | some f => simpa using exec_restoringFirst _ emptyEnv f.body st (hpc f (lookup_mem pcs name f hl))
+
+/-- The flag is the same after any trace of callbacks, setters and nested placement calls (to any
+depth) as before it. -/
+theorem runTr_flag (tbl pcs : List FnDef) (hff : ∀ f ∈ tbl, flagFree f.body = true)
+    (hpc : ∀ f ∈ pcs, restoringFirst f.body = true) :
+    ∀ (t : Tr) (st : St), (runTr tbl pcs t st).st.inUse = st.inUse := by
+  intro t
+  induction t with
+  | done thr => intro st; simp [runTr]
+  | setter sc k ih =>
+    intro st
+    simp only [runTr]
+    exact absorbThen_flag _ _ _ _ (runSetter_flag tbl hff sc st) (fun s hs => by rw [ih s, hs])
+  | nested name inner k _ ih =>
+    intro st
+    simp only [runTr]
+    exact absorbThen_flag _ _ _ _ (runCall_flag pcs hpc name _ st) (fun s hs => by rw [ih s, hs])
+  | cbEnd thr k ih =>
+    intro st
+    by_cases ht : thr = true
+    · simp [runTr, ht]
+    · simp [runTr, ht, ih st]
 
 /-! ### a guarded placement call propagates the exception of its stage -/
 
-/-- the body is exactly `guard; call stage` -/
+/-- the body is exactly `guard; call stage` (a guard of either kind) -/
 def guardedCall : List Stmt → Bool
   | [.scopeGuard, .call _] => true
+  | [.restoreGuard, .call _] => true
   | _ => false
 
-theorem guardedCall_shape (b : List Stmt) (h : guardedCall b = true) : ∃ n, b = [.scopeGuard, .call n] := by
+/-- the body is exactly `re-entrant guard; call stage` -/
+def restoringCall : List Stmt → Bool
+  | [.restoreGuard, .call _] => true
+  | _ => false
+
+theorem guardedCall_shape (b : List Stmt) (h : guardedCall b = true) :
+    ∃ n, b = [.scopeGuard, .call n] ∨ b = [.restoreGuard, .call n] := by
   unfold guardedCall at h
+  split at h
+  · exact ⟨_, Or.inl rfl⟩
+  · exact ⟨_, Or.inr rfl⟩
+  · simp at h
+
+theorem restoringCall_shape (b : List Stmt) (h : restoringCall b = true) : ∃ n, b = [.restoreGuard, .call n] := by
+  unfold restoringCall at h
   split at h
   · exact ⟨_, rfl⟩
   · simp at h
+
+theorem restoringCall_first (b : List Stmt) (h : restoringCall b = true) : restoringFirst b = true := by
+  obtain ⟨n, rfl⟩ := restoringCall_shape b h
+  rfl
+
+theorem restoringCall_guarded (b : List Stmt) (h : restoringCall b = true) : guardedCall b = true := by
+  obtain ⟨n, rfl⟩ := restoringCall_shape b h
+  rfl
 
 theorem andThen_out_ne_normal (r : Res) (k : St → Res) (hk : ∀ s, (k s).out ≠ .normal) :
     (r.andThen k).out ≠ .normal := by
@@ -176,19 +224,75 @@ theorem andThen_of_ne_normal (r : Res) (k : St → Res) (h : r.out ≠ .normal) 
   · rename_i h'; exact absurd h' h
   · rfl
 
-theorem runStage_throws (tbl : List FnDef) (cbs : List Callback) (st : St) :
-    (runStage tbl ⟨cbs, true⟩ st).out ≠ .normal := by
-  unfold runStage
-  apply andThen_out_ne_normal
-  intro s
-  simp
+theorem andThen_out_of_normal (r : Res) (k : St → Res) (h : r.out = .normal) : (r.andThen k).out = (k r.st).out := by
+  unfold Res.andThen
+  simp [h]
 
-theorem execPlacement_propagates (tbl : List FnDef) (b : List Stmt) (h : guardedCall b = true)
-    (cbs : List Callback) (st : St) : (execPlacement tbl b ⟨cbs, true⟩ st).out ≠ .normal := by
-  obtain ⟨n, rfl⟩ := guardedCall_shape b h
-  simp only [execPlacement, exec, Res.release]
-  rw [andThen_of_ne_normal _ _ (runStage_throws tbl cbs _)]
-  exact runStage_throws tbl cbs _
+/-- a call statement at the end of a body: the result is the callee's -/
+theorem andThen_done (r : Res) : r.andThen (fun s => (⟨.normal, s, []⟩ : Res)) = r := by
+  unfold Res.andThen
+  split
+  · rename_i h
+    cases r
+    simp_all
+  · rfl
+
+/-- The stage of a `guard; call` body runs with the flag set and the call ends as the stage does. -/
+theorem exec_guardedCall_out (oc : String → St → Res) (env : Env) (b : List Stmt) (h : guardedCall b = true) (st : St) :
+    ∃ n, (exec oc env b st).out = (oc n { st with inUse := true }).out := by
+  obtain ⟨n, hb | hb⟩ := guardedCall_shape b h <;> subst hb
+  · exact ⟨n, by simp [exec, Res.release, andThen_done]⟩
+  · exact ⟨n, by simp [exec, Res.restore, andThen_done]⟩
+
+/-- A re-entrant placement call = run the stage with the flag set, then put the flag back. -/
+theorem exec_restoringCall (oc : String → St → Res) (env : Env) (b : List Stmt) (h : restoringCall b = true) (st : St) :
+    ∃ n, exec oc env b st = (oc n { st with inUse := true }).restore st.inUse := by
+  obtain ⟨n, rfl⟩ := restoringCall_shape b h
+  exact ⟨n, by simp [exec, andThen_done]⟩
+
+/-- every way through the trace that reaches the end of the stage finds it throwing -/
+def Tr.endsThrowing : Tr → Bool
+  | .done thr => thr
+  | .setter _ k => k.endsThrowing
+  | .nested _ _ k => k.endsThrowing
+  | .cbEnd thr k => thr || k.endsThrowing
+
+theorem absorbThen_out_ne_normal (r : Res) (line : String) (k : St → Res) (hk : ∀ s, (k s).out ≠ .normal) :
+    (r.absorbThen line k).out ≠ .normal := by
+  unfold Res.absorbThen
+  split
+  · simp
+  · simp
+  · simpa using hk r.st
+
+theorem runTr_throws (tbl pcs : List FnDef) :
+    ∀ (t : Tr) (st : St), t.endsThrowing = true → (runTr tbl pcs t st).out ≠ .normal := by
+  intro t
+  induction t with
+  | done thr => intro st h; simp only [Tr.endsThrowing] at h; simp [runTr, h]
+  | setter sc k ih =>
+    intro st h
+    simp only [runTr]
+    exact absorbThen_out_ne_normal _ _ _ (fun s => ih s h)
+  | nested name inner k _ ih =>
+    intro st h
+    simp only [runTr]
+    exact absorbThen_out_ne_normal _ _ _ (fun s => ih s h)
+  | cbEnd thr k ih =>
+    intro st h
+    by_cases ht : thr = true
+    · simp [runTr, ht]
+    · have hf : thr = false := by simpa using ht
+      subst hf
+      simp only [Tr.endsThrowing, Bool.false_or] at h
+      simpa [runTr] using ih st h
+
+theorem execPlacement_propagates (tbl pcs : List FnDef) (b : List Stmt) (h : guardedCall b = true)
+    (t : Tr) (ht : t.endsThrowing = true) (st : St) : (execPlacement tbl pcs b t st).out ≠ .normal := by
+  obtain ⟨n, hn⟩ := exec_guardedCall_out (fun _ s => runTr tbl pcs t s) emptyEnv b h st
+  unfold execPlacement
+  rw [hn]
+  exact runTr_throws tbl pcs t _ ht
 
 /-! ### a placement call ends by return or by an exception -/
 
@@ -221,6 +325,7 @@ theorem exec_assertFree (oc : String → St → Res) (env : Env) :
     | setInUse b => simp only [assertFree] at h; simpa [exec] using ih _ h
     | call f => simp [assertFree] at h
     | scopeGuard => simp only [assertFree] at h; simpa [exec, Res.release] using ih _ h
+    | restoreGuard => simp only [assertFree] at h; simpa [exec, Res.restore] using ih _ h
     | ret => simp [exec, Outcome.good]
     | assertC c => simp [assertFree] at h
     | paramsCheck => simp only [assertFree] at h; simpa [exec] using ih _ h
@@ -231,66 +336,70 @@ theorem runSetter_good (tbl : List FnDef) (haf : ∀ f ∈ tbl, assertFree f.bod
   unfold runSetter
   cases hl : lookup tbl sc.name with
   | none => simp [hl] at hk
+  | some f => simpa using exec_assertFree noCall sc.env f.body st (haf f (lookup_mem tbl sc.name f hl))
+
+/-- every setter and every nested placement call named in the trace (at any depth) exists -/
+def Tr.known (tbl pcs : List FnDef) : Tr → Bool
+  | .done _ => true
+  | .setter sc k => (lookup tbl sc.name).isSome && k.known tbl pcs
+  | .nested name inner k => (lookup pcs name).isSome && inner.known tbl pcs && k.known tbl pcs
+  | .cbEnd _ k => k.known tbl pcs
+
+def Outcome.ended (o : Outcome) : Prop := o = .normal ∨ o = .thrown
+
+theorem absorbThen_ended (r : Res) (line : String) (k : St → Res) (hr : r.out.good)
+    (hk : ∀ s, (k s).out.ended) : (r.absorbThen line k).out.ended := by
+  unfold Res.absorbThen
+  split
+  · rename_i h; simp [Outcome.good, h] at hr
+  · rename_i h; simp [Outcome.good, h] at hr
+  · simpa using hk r.st
+
+theorem runCall_ended (pcs : List FnDef) (hpc : ∀ f ∈ pcs, guardedCall f.body = true) (name : String)
+    (stage : St → Res) (st : St) (hk : (lookup pcs name).isSome = true) (hs : ∀ s, (stage s).out.ended) :
+    (runCall pcs name stage st).out.ended := by
+  unfold runCall
+  cases hl : lookup pcs name with
+  | none => simp [hl] at hk
   | some f =>
-    have hm : f ∈ tbl := by
-      unfold lookup at hl
-      exact List.mem_of_find?_eq_some hl
-    simpa using exec_assertFree noCall sc.env f.body st (haf f hm)
+    obtain ⟨n, hn⟩ := exec_guardedCall_out (fun _ s => stage s) emptyEnv f.body (hpc f (lookup_mem pcs name f hl)) st
+    simp only [hn]
+    exact hs _
 
-theorem runActs_normal (tbl : List FnDef) (haf : ∀ f ∈ tbl, assertFree f.body = true) :
-    ∀ (acts : List SetterCall) (st : St), (∀ a ∈ acts, (lookup tbl a.name).isSome = true) →
-      (runActs tbl acts st).out = .normal := by
-  intro acts
-  induction acts with
-  | nil => intro st _; simp [runActs]
-  | cons a rest ih =>
-    intro st hk
-    have hg := runSetter_good tbl haf a st (hk a (by simp))
-    simp only [runActs]
-    split
-    · rename_i h; simp [Outcome.good, h] at hg
-    · rename_i h; simp [Outcome.good, h] at hg
-    · simpa using ih _ (fun b hb => hk b (by simp [hb]))
+theorem runTr_ended (tbl pcs : List FnDef) (haf : ∀ f ∈ tbl, assertFree f.body = true)
+    (hpc : ∀ f ∈ pcs, guardedCall f.body = true) :
+    ∀ (t : Tr) (st : St), t.known tbl pcs = true → (runTr tbl pcs t st).out.ended := by
+  intro t
+  induction t with
+  | done thr => intro st _; by_cases ht : thr = true <;> simp [runTr, ht, Outcome.ended]
+  | setter sc k ih =>
+    intro st h
+    simp only [Tr.known, Bool.and_eq_true] at h
+    simp only [runTr]
+    exact absorbThen_ended _ _ _ (runSetter_good tbl haf sc st h.1) (fun s => ih s h.2)
+  | nested name inner k ihi ih =>
+    intro st h
+    simp only [Tr.known, Bool.and_eq_true] at h
+    simp only [runTr]
+    refine absorbThen_ended _ _ _ ?_ (fun s => ih s h.2)
+    rcases runCall_ended pcs hpc name _ st h.1.1 (fun s => ihi s h.1.2) with h' | h'
+    · exact Or.inl h'
+    · exact Or.inr (Or.inr h')
+  | cbEnd thr k ih =>
+    intro st h
+    simp only [Tr.known] at h
+    by_cases ht : thr = true
+    · simp [runTr, ht, Outcome.ended]
+    · simpa [runTr, ht] using ih st h
 
-theorem andThen_out_of_normal (r : Res) (k : St → Res) (h : r.out = .normal) : (r.andThen k).out = (k r.st).out := by
-  unfold Res.andThen
-  simp [h]
-
-def Callback.known (tbl : List FnDef) (cb : Callback) : Prop := ∀ a ∈ cb.acts, (lookup tbl a.name).isSome = true
-
-theorem runCallbacks_out (tbl : List FnDef) (haf : ∀ f ∈ tbl, assertFree f.body = true) :
-    ∀ (cbs : List Callback) (st : St), (∀ cb ∈ cbs, cb.known tbl) →
-      (runCallbacks tbl cbs st).out = .normal ∨ (runCallbacks tbl cbs st).out = .thrown := by
-  intro cbs
-  induction cbs with
-  | nil => intro st _; simp [runCallbacks]
-  | cons cb rest ih =>
-    intro st hk
-    simp only [runCallbacks]
-    rw [andThen_out_of_normal _ _ (runActs_normal tbl haf cb.acts st (hk cb (by simp)))]
-    by_cases ht : cb.throws = true
-    · simp [ht]
-    · simpa [ht] using ih _ (fun c hc => hk c (by simp [hc]))
-
-theorem runStage_out (tbl : List FnDef) (haf : ∀ f ∈ tbl, assertFree f.body = true) (sg : Stage) (st : St)
-    (hk : ∀ cb ∈ sg.cbs, cb.known tbl) :
-    (runStage tbl sg st).out = .normal ∨ (runStage tbl sg st).out = .thrown := by
-  unfold runStage
-  rcases runCallbacks_out tbl haf sg.cbs st hk with h | h
-  · rw [andThen_out_of_normal _ _ h]
-    by_cases ht : sg.throws = true <;> simp [ht]
-  · rw [andThen_of_ne_normal _ _ (by simp [h])]
-    exact Or.inr h
-
-theorem execPlacement_out (tbl : List FnDef) (haf : ∀ f ∈ tbl, assertFree f.body = true) (b : List Stmt)
-    (hb : guardedCall b = true) (sg : Stage) (st : St) (hk : ∀ cb ∈ sg.cbs, cb.known tbl) :
-    (execPlacement tbl b sg st).out = .normal ∨ (execPlacement tbl b sg st).out = .thrown := by
-  obtain ⟨n, rfl⟩ := guardedCall_shape b hb
-  simp only [execPlacement, exec, Res.release]
-  rcases runStage_out tbl haf sg _ hk with h | h
-  · rw [andThen_out_of_normal _ _ h]; simp
-  · rw [andThen_of_ne_normal _ _ (by simp [h])]
-    exact Or.inr h
+theorem execPlacement_out (tbl pcs : List FnDef) (haf : ∀ f ∈ tbl, assertFree f.body = true)
+    (hpc : ∀ f ∈ pcs, guardedCall f.body = true) (b : List Stmt)
+    (hb : guardedCall b = true) (t : Tr) (st : St) (hk : t.known tbl pcs = true) :
+    (execPlacement tbl pcs b t st).out = .normal ∨ (execPlacement tbl pcs b t st).out = .thrown := by
+  obtain ⟨n, hn⟩ := exec_guardedCall_out (fun _ s => runTr tbl pcs t s) emptyEnv b hb st
+  unfold execPlacement
+  rw [hn]
+  exact runTr_ended tbl pcs haf hpc t _ hk
 
 /-! ### pin validation condition -/
 
